@@ -54,3 +54,23 @@ func VerifDefaults() (clientPing, clientTimeout, backoffMin, backoffMax, serverP
 	s := defaultServerConfig()
 	return c.pingInterval, c.timeout, c.reconnectBackoff.minDelay, c.reconnectBackoff.maxDelay, s.pingInterval, s.maxRequestSize, maxQueuedFrames
 }
+
+// VerifConnKind tells the harness what the first argument of a hook is.
+func VerifConnKind(c interface{}) string {
+	switch v := c.(type) {
+	case *wsConn:
+		if _, ok := v.handler.(*RPCServer); ok {
+			return "ws-server"
+		}
+		return "ws-client"
+	case *client:
+		return "client"
+	case *handler:
+		return "handler"
+	case *RPCServer:
+		return "handler"
+	case *lazyWriter:
+		return "lazywriter"
+	}
+	return "other"
+}
